@@ -15,13 +15,14 @@ def consts(path):
                 pass
     return out
 
-PENDING = json.load(open(os.path.join(ROOT, "tools", "pending.json"))) if os.path.exists(os.path.join(ROOT, "tools", "pending.json")) else {}
+ACCEPTED = set(json.load(open(os.path.join(ROOT, "tools", "accepted.json"))))
+PENDING = {}
 checks, na, engines = [], [], {}
 for p in props:
     pid = p["id"]
     path = os.path.join(ROOT, "xv", "checks", pid.lower() + ".py")
-    if not os.path.exists(path) or pid in PENDING:
-        na.append({"property_id": pid, "reason": PENDING.get(pid, "check not built yet in this session (runtime monitoring applies; see DESIGN.md section 3)")})
+    if not os.path.exists(path) or pid not in ACCEPTED:
+        na.append({"property_id": pid, "reason": PENDING.get(pid, "check not yet accepted: under construction / self-test in this session (runtime monitoring applies; see DESIGN.md section 3)")})
         continue
     c = consts(path)
     chk = {
